@@ -17,6 +17,7 @@ import numpy as np
 
 from .errors import HarnessError, InjectedCrash
 from .interleave import CrashTracer, Interleaver, LineCounter, current_vthread
+from .writelines import shared_write_lines
 
 # uuid4 / md5 tokens, also the truncated remnants that dask leaves in fused key names ("...-c9c0a162d9334d1e864fa80a3f--570")
 _HEX = re.compile(r"0x[0-9a-f]+|(?<![0-9a-z])[0-9a-f]{3,}(?![0-9a-z])")
@@ -128,12 +129,14 @@ class SimConfig:
     crash_p: float = 0.0        # probe: crash a task at an arbitrary abTEM line, retry it
     qlo: int = 1
     qhi: int = 60
+    whi: int = 0                # > 0: write-directed pre-emption, a quantum also ends at the k-th shared-write boundary, k = WQ[0..whi)
+    qlog: bool = False          # quanta drawn log-uniformly from 1, 2, 4 .. <= qhi instead of uniformly from qlo..qhi
     step_cap: int = 4000
     trace_root: str = "/repo/abtem/"
 
     def describe(self):
         return {k: getattr(self, k) for k in ("workers", "reorder", "release", "recompute_p", "monitor_inputs",
-                                              "dup_p", "crash_p", "qlo", "qhi")}
+                                              "dup_p", "crash_p", "qlo", "qhi", "whi", "qlog")}
 
 
 @dataclass
@@ -144,6 +147,7 @@ class SimStats:
     choice_points: int = 0
     nonfirst_picks: int = 0
     switches: int = 0
+    write_preemptions: int = 0
     concurrent_max: int = 0
     recomputes: int = 0
     recomputed_tasks: int = 0
@@ -423,7 +427,8 @@ class SimScheduler:
                 finish(k, value)
                 drain()
         else:
-            il = Interleaver(ch, cfg.trace_root, cfg.qlo, cfg.qhi, self.log, st.__dict__)
+            wl = shared_write_lines(cfg.trace_root) if cfg.whi > 0 else None
+            il = Interleaver(ch, cfg.trace_root, cfg.qlo, cfg.qhi, self.log, st.__dict__, write_lines=wl, whi=cfg.whi, qlog=cfg.qlog)
             running: dict = {}
             failure = None
             while ready or running:
